@@ -306,7 +306,7 @@ static void case_c11(const drvargs_t *a,long id){
         if(D0.pagegran && cntdiff && is_last && k>=lg)
           snprintf(key,sizeof key,"per-page-granules:eos-trim-changed-by-discontinuity-inside-final-page");
         else if(D0.pagegran && cntdiff && k<=first_gran_pkt && bad<=first_gran_pkt+1)
-          snprintf(key,sizeof key,"per-page-granules:first-granule-after-disturbance-in-first-page-taken-for-stream-start-trim");
+          snprintf(key,sizeof key,"per-page-granules:first-granule-after-%s-in-first-page-taken-for-stream-start-trim",(kind==3||kind==4||kind==5)?"accepted-corruption":"sequence-gap");
         else snprintf(key,sizeof key,"%s-at-k+%s%s%s",cntdiff?"count-differs":"samples-differ", bad-k>=4?"4+":(bad-k==2?"2":"3"), is_last?":last-packet":"", D0.pagegran?":per-page-granules":"");
         res_viol("C11",key,"%s of packet %d (of %d): packet %d yields %ld samples (clean %ld)%s: %s",distname[kind],k,na,bad,dis[bad].n,clean[bad].n,D0.pagegran?", per-page granule positions":"",desc);
       } else res_bucket("%s|%s|%s|%s",distname[kind],k<2?"head":k>=na-3?"tail":"mid",D0.pagegran?"pagegran":"pktgran",model?"model":"enc");
@@ -346,7 +346,7 @@ static void c13_encoder(rng_t *r,const drvargs_t *a,long id){
         if(ret==0 && stage>=2){
           vorbis_analysis_init(&vd,&vi); dsp=1; scn="enc-analysis-init-only";
           if(stage>=3){ vorbis_block_init(&vd,&vb); blk=1; scn="enc-block-init-only"; }
-          if(stage>=4){ ogg_packet h1,h2,h3; vorbis_comment_add_tag(&vc,"A","b"); vorbis_analysis_headerout(&vd,&vc,&h1,&h2,&h3); scn="enc-headerout-only"; }
+          if(stage>=4){ ogg_packet h1,h2,h3; vorbis_comment_add_tag(&vc,"A","b"); int reps=1+(int)rng_below(r,3); for(int q=0;q<reps;q++) vorbis_analysis_headerout(&vd,&vc,&h1,&h2,&h3); scn= reps>1?"enc-headerout-repeated":"enc-headerout-only"; }
           if(stage>=5){
             long N= stage==5?(long)rng_range(r,0,300):(long)rng_range(r,300,a->thorough?20000:6000); if(ch>16&&N>1500)N=1500; long done=0; ogg_packet op;
             while(done<N){ long n=VH_MIN(N-done,1024); float **b=vorbis_analysis_buffer(&vd,(int)n); for(int c=0;c<ch;c++) for(long i=0;i<n;i++) b[c][i]=sig_sample(SIG_BURSTS,id,c,done+i,rate,N); vorbis_analysis_wrote(&vd,(int)n); done+=n;
@@ -403,12 +403,25 @@ static void c13_file(rng_t *r,const drvargs_t *a,long id){
   gen_chain(r,4,a->thorough?12000:6000,GC_ALLOW_EMPTY|GC_MULTICH,&cd); chain_describe(&cd,desc,sizeof desc);
   if(build_chain(&cd,&phys,NULL)){ buf_free(&phys); return; }
   /* damage (or not) */
-  int dmg=(int)rng_below(r,8); const char *dn="intact";
+  int dmg=(int)rng_below(r,10); const char *dn="intact";
   if(dmg==1){ phys.n=rng_range(r,0,(long)phys.n); dn="truncated"; }
   else if(dmg==2){ for(int k=0;k<8;k++) phys.p[rng_below(r,(uint32_t)phys.n)]^=(unsigned char)(1<<rng_below(r,8)); dn="bitflips"; }
   else if(dmg==3){ for(size_t i=0;i<phys.n;i++) phys.p[i]=(unsigned char)rng_next(r); dn="garbage"; }
   else if(dmg==4){ long at=rng_range(r,0,(long)phys.n-1); long len=rng_range(r,1,5000); if(len>(long)phys.n-at) len=(long)phys.n-at; memset(phys.p+at,0,len); dn="zeroed-span"; }
   else if(dmg==5){ { size_t cut=(size_t)rng_range(r,28,4000); if(cut<phys.n) phys.n=cut; } dn="headers-cut"; }
+  else if(dmg==6||dmg==7){ /* a foreign logical stream's BOS page inserted into the BOS group of a link; for dmg 7 twice (repeated serial number) */
+    pageinfo_t *pg=NULL; int np=page_scan(phys.p,phys.n,&pg); int at=-1; int want=(int)rng_below(r,4);
+    for(int i=0;i<np;i++) if(pg[i].bos){ at=i; if(want--<=0) break; }
+    if(at>=0){
+      ogg_stream_state fs; ogg_page fo; ogg_packet fp; unsigned char body[30]; memset(body,0,sizeof body); memcpy(body,"\x80theora",7);
+      ogg_stream_init(&fs,(int)rng_next(r)); memset(&fp,0,sizeof fp); fp.packet=body; fp.bytes=sizeof body; fp.b_o_s=1; ogg_stream_packetin(&fs,&fp); 
+      buf_t o; buf_init(&o); long ins=pg[at].off+pg[at].len;
+      buf_add(&o,phys.p,ins);
+      if(ogg_stream_flush(&fs,&fo)){ int reps= dmg==7?2:1; for(int q=0;q<reps;q++){ buf_add(&o,fo.header,fo.header_len); buf_add(&o,fo.body,fo.body_len); } }
+      buf_add(&o,phys.p+ins,phys.n-ins); ogg_stream_clear(&fs); buf_free(&phys); phys=o;
+    }
+    free(pg); dn= dmg==7?"foreign-bos-twice":"foreign-bos";
+  }
   int seekmode= rng_chance(r,0.75)?1:(rng_chance(r,0.5)?0:2);
   int how=(int)rng_below(r,3);  /* 0 open_callbacks, 1 test+test_open, 2 test only (partial open) */
   int fk= rng_chance(r,0.4)?(int)rng_range(r,1,F_NKINDS-1):F_NONE; long fat=rng_range(r,0,60);
